@@ -190,6 +190,16 @@ def inputs(ctx):
                          [{"t": "tag", "kind": kind, "open": False}] + chs(trail) + [{"t": "wrap"}] + chs("ij"))
                 ins.append({"id": "k%d" % n, "fmt": fmt, "cues": [items, chs("z")]})
                 n += 1
+    # two inline elements with nothing but one blank between them (the blank is the word separator),
+    # and a blank-only run before a break / at the end of the cue
+    for fmt, kinds in (("DFXP", ["span", "spanstyle"]), ("SAMI", ["i", "b", "span"]), ("WebVTT", ["i", "b", "c"])):
+        for k1 in kinds:
+            for k2 in kinds:
+                for sep in (" ", "  "):
+                    items = (chs("go ") + [{"t": "tag", "kind": k1, "open": True}] + chs("WARNING") + [{"t": "tag", "kind": k1, "open": False}] +
+                             chs(sep) + [{"t": "tag", "kind": k2, "open": True}] + chs("wet") + [{"t": "tag", "kind": k2, "open": False}] + chs(" floor"))
+                    ins.append({"id": "k%d" % n, "fmt": fmt, "cues": [items, chs("z")]})
+                    n += 1
     # CDATA sections (DFXP): literal text that needs no escaping, alone, between characters, in a span
     def cd(text):
         return {"t": "lit", "s": [ord(c) for c in text], "raw": False, "cdata": True}
